@@ -30,6 +30,8 @@ type Ctx struct {
 	Replay  string
 	Repo    string
 	Aux     string // auxiliary input (e.g. the sentences TLC generated from the grammar)
+
+	debugRotate bool
 }
 
 // Meta is what a driver reports about the cases it ran (for the evidence file).
@@ -64,10 +66,14 @@ type Def struct {
 	Nontrivial func(r Rec) bool   // nil: every record counts
 	Key        func(r Rec) string // distinctness key; nil: JSON of the case + kind
 	Extra      func(recs []Rec) map[string]any
+	// Debug: the inputs of this driver are valid by construction (no syntax errors: the one open finding, goyacc's trace on
+	// stdout, cannot occur), so one request in eight also carries the global --debug flag, which must change nothing
+	Debug bool
 }
 
 func register(name string, d Def) {
 	drivers[name] = func(c *Ctx) (*Meta, error) {
+		c.debugRotate = d.Debug
 		var cases []Case
 		if c.Replay != "" {
 			b, err := os.ReadFile(c.Replay)
@@ -181,17 +187,21 @@ var hangs atomic.Int64
 
 // how standard input reaches crd is rotated by a hash of the request (so a request always travels the same way): mostly a
 // pipe fed at once, one run in eight redirected from a regular file (`< file`), one in eight a slow pipe
-func stdinModeFor(args []string, stdin []byte) string {
-	if len(stdin) == 0 || len(stdin) > 1<<16 {
-		return ""
-	}
+func requestHash(args []string, stdin []byte) uint32 {
 	h := fnv.New32a()
 	for _, a := range args {
 		h.Write([]byte(a))
 		h.Write([]byte{0})
 	}
 	h.Write(stdin)
-	switch h.Sum32() % 8 {
+	return h.Sum32()
+}
+
+func stdinModeFor(args []string, stdin []byte) string {
+	if len(stdin) == 0 || len(stdin) > 1<<16 {
+		return ""
+	}
+	switch requestHash(args, stdin) % 8 { // the low bits choose the input route
 	case 0:
 		return "file"
 	case 1:
@@ -202,6 +212,9 @@ func stdinModeFor(args []string, stdin []byte) string {
 
 func (c *Ctx) crd(args []string, stdin []byte) run.Result {
 	mode := stdinModeFor(args, stdin)
+	if c.debugRotate && (requestHash(args, stdin)/8)%8 == 3 {
+		args = append(append([]string{}, args...), "--debug")
+	}
 	if hangs.Load() >= 3 {
 		return run.Run(c.Bin, run.Cmd{Args: args, Stdin: stdin, StdinMode: mode, Timeout: 1500 * time.Millisecond})
 	}
